@@ -30,9 +30,9 @@ def max_items(alg, k, oracle=False):
     elif alg == "ilp":
         n = 7
     elif alg == "rnp":      # cheap enough for 10-11 items (its recursion only gets interesting from about 10 items on)
-        n = {1: 10, 2: 11, 3: 11, 4: 10, 5: 10}.get(k, 6)
+        n = {1: 10, 2: 11, 3: 11, 4: 10, 5: 9}.get(k, 6)
     else:   # ckk, snp
-        n = {1: 10, 2: 10, 3: 9, 4: 8, 5: 7, 6: 6}.get(k, 6)
+        n = {1: 10, 2: 12, 3: 10, 4: 8, 5: 7, 6: 6}.get(k, 6)
     if oracle:
         n = min(n, {1: 10, 2: 10, 3: 10, 4: 9, 5: 8, 6: 7}.get(k, 7))
     return n
